@@ -13,7 +13,8 @@ RULE = ("find_shortest_path(s, e) judged against BFS on an adjacency-set model: 
         "every grid with <= 12 lattice edges (1x1..1x7, 2x2, 2x3, 3x2, 2x4, 4x2, 3x3) x every ordered cell pair; (2) random trees, "
         "cyclic, percolation and A*-hostile shapes on larger square/oblong grids with sampled pairs (arguments as tuples, lists, int64/int32/int8 arrays, "
         "tuples of numpy scalars), incl. grids of 13..30 (thorough 40) cells a side and long thin grids (more than 127 / 255 cells); "
-        "corridors/ladders with a side of 129..300 cells; mazes exactly as the generators return them (generation metadata attached; percolation, "
+        "corridors/ladders with a side of 129..300 cells; two-lane mazes of 60..1000 (thorough 4000) columns in which the optimal route starts away from the goal; "
+        " mazes exactly as the generators return them (generation metadata attached; percolation, "
         "constrained dfs) with every ordered pair; (3) SolvedMaze.from_targeted_lattice_maze; (4) the ambient solver monitor on internal calls (generate_random_path). "
         "non-trivial & distinct = distinct (connection structure, s, e) with s != e on a structure with >= 1 edge")
 ASSUMPTIONS = ["mazes obey the boundary rule (no connection leaves the grid)", "start/end inside the grid"]
@@ -21,7 +22,7 @@ EXHAUSTIVE = {"quick": False, "thorough": False}
 NSHARDS = {"quick": 16, "thorough": 16}
 THRESHOLDS = {
     "quick": {"repotests:ambient:solver:return": 50, "c02:unreachable-raised": 1000, "c02:multi-route-pairs": 1000, "c02:adv-mazes": 100, "c02:self-query": 100,
-              "c02:exh-structures": 6541, "c02:from-targeted": 50, "ambient:solver:return": 20, "c02:array-args": 100, "c02:large-mazes": 60, "c02:side>127": 6, "c02:generator-made-mazes": 50, "c02:generator-made-disconnected": 15,
+              "c02:exh-structures": 6541, "c02:from-targeted": 50, "ambient:solver:return": 20, "c02:array-args": 100, "c02:large-mazes": 60, "c02:side>127": 6, "c02:two-lane-mazes": 12, "c02:generator-made-mazes": 50, "c02:generator-made-disconnected": 15,
               "hits:find_shortest_path": 1000},
 }
 THRESHOLDS["thorough"] = {**THRESHOLDS["quick"], "c02:exh-structures-13-17-edges": 2 * 8192 + 2 * 131072}
@@ -225,6 +226,21 @@ def run(ctx):
             res, exc = None, ex
         ctx.ev(); ctx.tally("c02:from-targeted")
         oracles.check_c02(ctx, g, s, e, res, exc, case, dist_cache=cache)
+    # ---- (2c') two-lane mazes: the optimal route starts by stepping away from the goal, the straight one pays later.
+    # Optimality over distances of 50..1000 (thorough 4000) cells - an inadmissible heuristic only shows beyond a distance ~ 2/eps
+    lanes = [(60, 2), (215, 2), (330, 2), (330, 3), (1000, 2), (128, 2), (260, 4)] + ([] if ctx.quick else [(2000, 2), (4000, 2), (700, 5)])
+    for j, (n_cols, brk) in enumerate(lanes):
+        for tr in (False, True):
+            if not ctx.mine(2 * j + tr):
+                continue
+            cl, s, e = ref.two_lanes(n_cols, transpose=tr, breaks=brk)
+            g = Graph(cl)
+            maze = lib.lattice(cl)
+            cache = {}
+            ctx.tally("c02:two-lane-mazes")
+            for (a, b) in ((s, e), (e, s)):
+                _solve(ctx, maze, g, a, b, dict(kind="two-lanes", n=n_cols, breaks=brk, transposed=tr, s=a, e=b), cache)
+                ctx.nontrivial("lanes", n_cols, brk, tr, a, b)
     # ---- (2d) mazes as the generators hand them out (with generation metadata attached): every ordered pair ------------------
     from maze_dataset.generation.generators import GENERATORS_MAP
 
